@@ -106,6 +106,17 @@ func init() {
 			s.Held(delta)
 		}
 	}
+	verifhook.SelB = func(point string, k int) {
+		if s := kernel.Current; s != nil {
+			s.SelBegin(point, k)
+		}
+	}
+	verifhook.SelN = func(i, k int) int {
+		if s := kernel.Current; s != nil {
+			return s.SelNext(i, k)
+		}
+		return i
+	}
 	verifhook.Yield = func(point string) {
 		if s := kernel.Current; s != nil {
 			s.Yield(kernel.KindLock, point, true)
